@@ -359,15 +359,41 @@ func (r *rewriter) genDecl(d *ast.GenDecl) {
 func main() {
 	out := flag.String("out", "", "output directory")
 	pkg := flag.String("pkg", "", "package name of the output files")
+	globals := flag.Bool("globals", false, "also insert scheduling points at accesses to written package-level variables and generate zzResetGlobals (see globals.go)")
 	flag.Parse()
 	if *out == "" || *pkg == "" || flag.NArg() == 0 {
 		fatal("usage: vrewrite -out DIR -pkg NAME file.go...")
 	}
-	for _, path := range flag.Args() {
+	var gi *globalsInfo
+	parsed := map[string]*ast.File{}
+	gfset := token.NewFileSet()
+	if *globals {
+		var all []*ast.File
+		for _, path := range flag.Args() {
+			f, err := parser.ParseFile(gfset, path, nil, 0)
+			if err != nil {
+				fatal("%v", err)
+			}
+			parsed[path] = f
+			all = append(all, f)
+		}
+		gi = collectGlobals(all)
+		fmt.Fprintf(os.Stderr, "vrewrite: written package-level variables: %v\n", gi.writtenNames())
+	}
+	var resetFuncs []string
+	for fi, path := range flag.Args() {
 		fset := token.NewFileSet()
-		f, err := parser.ParseFile(fset, path, nil, parser.SkipObjectResolution)
-		if err != nil {
-			fatal("%v", err)
+		var f *ast.File
+		if gi != nil {
+			fset = gfset
+			f = parsed[path]
+			gi.instrumentFile(f)
+		} else {
+			var err error
+			f, err = parser.ParseFile(fset, path, nil, parser.SkipObjectResolution)
+			if err != nil {
+				fatal("%v", err)
+			}
 		}
 		r := &rewriter{fset: fset, file: path}
 		f.Name = ast.NewIdent(*pkg)
@@ -399,6 +425,13 @@ func main() {
 				r.block(x.Body)
 			}
 		}
+		if gi != nil {
+			if rs := gi.resetStmts(f); len(rs) > 0 {
+				name := fmt.Sprintf("zzResetGlobals%d", fi)
+				resetFuncs = append(resetFuncs, name)
+				f.Decls = append(f.Decls, &ast.FuncDecl{Name: ast.NewIdent(name), Type: &ast.FuncType{Params: &ast.FieldList{}}, Body: &ast.BlockStmt{List: rs}})
+			}
+		}
 		// always import vsched (blank use keeps it legal when unused)
 		imp := &ast.GenDecl{Tok: token.IMPORT, Specs: []ast.Spec{&ast.ImportSpec{Path: &ast.BasicLit{Kind: token.STRING, Value: strconv.Quote(vschedPath)}}}}
 		f.Decls = append([]ast.Decl{imp}, f.Decls...)
@@ -420,6 +453,18 @@ func main() {
 		}
 		name := "zz_rw_" + strings.Join(parts, "_")
 		if err := os.WriteFile(filepath.Join(*out, name), src, 0o644); err != nil {
+			fatal("%v", err)
+		}
+	}
+	if gi != nil {
+		var b bytes.Buffer
+		fmt.Fprintf(&b, "package %s\n\n// zzWrittenGlobals lists the package-level variables whose accesses are scheduling points.\nvar zzWrittenGlobals = %#v\n\n", *pkg, gi.writtenNames())
+		fmt.Fprintf(&b, "// zzResetGlobals restores the package's initial state.\nfunc zzResetGlobals() {\n")
+		for _, n := range resetFuncs {
+			fmt.Fprintf(&b, "\t%s()\n", n)
+		}
+		fmt.Fprintf(&b, "}\n")
+		if err := os.WriteFile(filepath.Join(*out, "zz_rw_globals_reset.go"), b.Bytes(), 0o644); err != nil {
 			fatal("%v", err)
 		}
 	}
